@@ -44,6 +44,10 @@ structure Ev where
   t : Nat := 0
   deriving DecidableEq, Repr
 
+/-- `sampleRate: int64(ev.SampleRate)`: the `samplerate` an event carries on the wire.  `SampleRate`
+is a 64-bit `uint`; Go's conversion to `int64` is the identity below 2^63 and wraps above. -/
+def wireRate (rate : Nat) : Int := if rate < 2 ^ 63 then rate else (rate : Int) - 2 ^ 64
+
 /-! ## 1. splitting -/
 
 /-- `packed := append(*bufPtr, 0, 0, 0, 0, 0)`: room for the largest msgpack array header -/
